@@ -1770,7 +1770,11 @@ package ecs
 //@   ensures fresh(d.Entities.data) && len(d.Entities) == len(w.entityPool.entities)
 //@   ensures forall k int :: {d.Entities[k].id} 0 <= k && k < len(d.Entities) ==> d.Entities[k].id == w.entityPool.entities[k].id && d.Entities[k].gen == w.entityPool.entities[k].gen
 //@   ensures d.Next == uint32(w.entityPool.next) && d.Available == w.entityPool.available
-//@   ensures[lock] lockInv(&w.locks) && (forall! b uint8 :: specBit(w.locks.locks, b) == old(specBit(w.locks.locks, b)))
+//@   ensures[lock] lockInv(&w.locks)
+//@   ensures[lock0] forall! b uint8 :: b < 64 ==> specBit(w.locks.locks, b) == old(specBit(w.locks.locks, b))
+//@   ensures[lock1] forall! b uint8 :: 64 <= b && b < 128 ==> specBit(w.locks.locks, b) == old(specBit(w.locks.locks, b))
+//@   ensures[lock2] forall! b uint8 :: 128 <= b && b < 192 ==> specBit(w.locks.locks, b) == old(specBit(w.locks.locks, b))
+//@   ensures[lock3] forall! b uint8 :: 192 <= b ==> specBit(w.locks.locks, b) == old(specBit(w.locks.locks, b))
 //@   ensures len(w.entityPool.entities) == old(len(w.entityPool.entities)) && w.entityPool.entities.data == old(w.entityPool.entities.data)
 //@   ensures forall k int :: {w.entityPool.entities[k].id} 0 <= k && k < len(w.entityPool.entities) ==> w.entityPool.entities[k].id == old(w.entityPool.entities[k].id) && w.entityPool.entities[k].gen == old(w.entityPool.entities[k].gen)
 //@   loop #1
